@@ -7,6 +7,13 @@ import AgpTpf.Model.Lookup
 namespace AgpTpf.C18
 open AgpTpf OverlapResult
 
+/-- decidable equality of results, so that concrete runs can be checked by `decide` (only used in `example`s) -/
+scoped instance instDecEqExcept {ε α} [DecidableEq ε] [DecidableEq α] : DecidableEq (Except ε α)
+  | .ok a, .ok b => if h : a = b then isTrue (by rw [h]) else isFalse (fun h' => h (by cases h'; rfl))
+  | .error a, .error b => if h : a = b then isTrue (by rw [h]) else isFalse (fun h' => h (by cases h'; rfl))
+  | .ok _, .error _ => isFalse (fun h => by cases h)
+  | .error _, .ok _ => isFalse (fun h => by cases h)
+
 /-! ### basic list / length facts -/
 
 theorem rowsLength_nil : rowsLength [] = 0 := rfl
@@ -782,5 +789,119 @@ theorem inv_lookup' {src : List Row} {bait : Fragment} {o : OverlapResult}
       (by simpa using hsrc) hr (Short.refl fi) (Short.refl fj) (by omega) (by omega) (by omega) ?_
     simp only [List.cons_append, rowsLength_cons, rowsLength_append, rowsLength_nil] at hen
     omega
+
+/-- the operations that create a new Fragment object (and so consume a fresh object id) -/
+def needsId : OvOp → Bool
+  | .trimFirst _ _ => true
+  | .trimLast _ _ => true
+  | _ => false
+
+theorem inv_trimLarge {src o o'} {e : Int} (hI : Inv src o) (h : trimLargeOverhangs o e = .ok o') : Inv src o' := by
+  rcases trimLarge_cases h with rfl | h1 | h1 | ⟨o1, h1, h2⟩
+  · exact hI
+  · exact inv_discardStart hI h1
+  · exact inv_discardEnd hI h1
+  · exact inv_discardEnd (inv_discardStart hI h1) h2
+
+theorem inv_step' {src o o'} {op : OvOp} {oid : Nat} (hI : Inv src o)
+    (hfresh : needsId op = true → oid ∉ ids o.rows) (h : applyOp o op oid = .ok o') : Inv src o' := by
+  cases op with
+  | discardStart => exact inv_discardStart hI h
+  | discardEnd => exact inv_discardEnd hI h
+  | trimLarge e => exact inv_trimLarge hI h
+  | trimFirst ks ke =>
+    obtain ⟨f, t, new, hr, ht⟩ := applyOp_trimFirst h
+    exact inv_trimFragment_first hI hr (hfresh rfl) ht
+  | trimLast ks ke =>
+    obtain ⟨f, t, new, hr, ht⟩ := applyOp_trimLast h
+    exact inv_trimFragment_last hI hr (hfresh rfl) ht
+
+/-! ids after a step -/
+
+theorem trimFragment_ids {o o' : OverlapResult} {f new : Fragment} {ks ke : Bool} {oid : Nat}
+    (hne : o.rows ≠ []) (h : trimFragment o f ks ke oid = .ok (o', new)) :
+    ∀ x ∈ ids o'.rows, x ∈ ids o.rows ∨ x = oid := by
+  rcases list_nil_or_concat o.rows with hr | ⟨t, r, hr⟩
+  · exact absurd hr hne
+  · obtain ⟨r0, t0, hr0⟩ : ∃ r0 t0, o.rows = r0 :: t0 := by
+      cases hc : o.rows with
+      | nil => exact absurd hc hne
+      | cons a b => exact ⟨a, b, rfl⟩
+    obtain ⟨d1, d2, _, _, _, _, _, _, _, _, hoid, _, _, hrows⟩ :=
+      trimFragment_spec (firstIs_cons o f r0 t0 hr0) (lastIs_concat o f r t hr) h
+    intro x hx
+    rw [hrows] at hx
+    split at hx
+    · rw [hr, setLast_concat, ids_append, ids_cons_frag, ids_nil] at hx
+      rw [hr, ids_append]
+      simp only [List.mem_append, List.mem_singleton] at hx ⊢
+      rcases hx with hx | hx
+      · exact Or.inl (Or.inl hx)
+      · exact Or.inr (by rw [hx, hoid])
+    · rw [hr0] at hx
+      simp only [ids_cons_frag, List.mem_cons] at hx
+      rcases hx with hx | hx
+      · exact Or.inr (by rw [hx, hoid])
+      · left
+        rw [hr0]
+        cases r0 with
+        | frag g => rw [ids_cons_frag]; exact List.mem_cons_of_mem _ hx
+        | gap g => rw [ids_cons_gap]; exact hx
+
+theorem ids_step {o o' : OverlapResult} {op : OvOp} {oid : Nat} (h : applyOp o op oid = .ok o') :
+    ∀ x ∈ ids o'.rows, x ∈ ids o.rows ∨ x = oid := by
+  have hS : ∀ {a b : OverlapResult}, discardStart a = .ok b → ∀ x ∈ ids b.rows, x ∈ ids a.rows := by
+    intro a b hab x hx
+    obtain ⟨P, hP, _⟩ := discardStart_rows hab
+    rw [hP, ids_append]; exact List.mem_append_right _ hx
+  have hE : ∀ {a b : OverlapResult}, discardEnd a = .ok b → ∀ x ∈ ids b.rows, x ∈ ids a.rows := by
+    intro a b hab x hx
+    obtain ⟨P, hP, _⟩ := discardEnd_rows hab
+    rw [hP, ids_append]; exact List.mem_append_left _ hx
+  cases op with
+  | discardStart => exact fun x hx => Or.inl (hS h x hx)
+  | discardEnd => exact fun x hx => Or.inl (hE h x hx)
+  | trimLarge e =>
+    intro x hx
+    left
+    rcases trimLarge_cases h with rfl | h1 | h1 | ⟨o1, h1, h2⟩
+    · exact hx
+    · exact hS h1 x hx
+    · exact hE h1 x hx
+    · exact hS h1 x (hE h2 x hx)
+  | trimFirst ks ke =>
+    obtain ⟨f, t, new, hr, ht⟩ := applyOp_trimFirst h
+    exact trimFragment_ids (by rw [hr]; simp) ht
+  | trimLast ks ke =>
+    obtain ⟨f, t, new, hr, ht⟩ := applyOp_trimLast h
+    exact trimFragment_ids (by rw [hr]; simp) ht
+
+/-- run a sequence of operations; each comes with the object id of the Fragment it may create.
+    The first rejected operation ends the run with its error. -/
+def runOps (o : OverlapResult) : List (OvOp × Nat) → R OverlapResult
+  | [] => .ok o
+  | (op, oid) :: rest => do
+    let o1 ← applyOp o op oid
+    runOps o1 rest
+
+theorem inv_ops' {src : List Row} (ops : List (OvOp × Nat)) {o o' : OverlapResult} (hI : Inv src o)
+    (hnd : (ops.map (·.2)).Nodup) (hfresh : ∀ x ∈ ops.map (·.2), x ∉ ids o.rows)
+    (h : runOps o ops = .ok o') : Inv src o' := by
+  induction ops generalizing o with
+  | nil => simp only [runOps, Except.ok.injEq] at h; subst h; exact hI
+  | cons p rest ih =>
+    obtain ⟨op, oid⟩ := p
+    simp only [runOps, bind, Except.bind] at h
+    cases h1 : applyOp o op oid with
+    | error e => rw [h1] at h; cases h
+    | ok o1 =>
+      rw [h1] at h
+      simp only [List.map_cons, List.nodup_cons] at hnd
+      have hI1 : Inv src o1 := inv_step' hI (fun _ => hfresh oid (by simp)) h1
+      refine ih hI1 hnd.2 ?_ h
+      intro x hx hx1
+      rcases ids_step h1 x hx1 with h2 | h2
+      · exact hfresh x (by simp [hx]) h2
+      · subst h2; exact hnd.1 hx
 
 end AgpTpf.C18
